@@ -289,11 +289,111 @@ def run(chk):
             uni.drop()
             uni = L.Universe()
     chk.cov["correspondence"]["histories"] = stats
+    exit_hook(chk, chk.rng)
     chk.assumptions += [
         "giving.SourceProxy (_push iterates the observers; __exit__ completes them, clears them, then calls _exit) and the reactivex operators are external: modelled and validated by this correspondence, not verified",
         "sum/min/max/last of an empty stream end with reactivex's SequenceContainsNoElementsError: not checked",
     ]
     uni.drop()
+
+
+XSRC = """
+def f(x):
+    a = x * x
+    return a
+
+def g(x):
+    b = x + 1
+    return b
+"""
+
+XCHILD = """
+import sys
+sys.path.insert(0, %(repo)r)
+from ptera import global_probe
+%(src)s
+%(setup)s
+for i in range(%(n)d):
+    f(i)
+    g(i)
+"""
+
+REDUCE = {"count": len, "sum": sum, "min": min, "max": max, "last": lambda xs: xs[-1]}
+
+
+def exit_hook(chk, rng):
+    """global probes still active when the interpreter exits: the exit hook completes each of their streams,
+    once (every reduction publishes its one result), whatever their number — the hook called in-process, and one
+    real interpreter exit in a child process"""
+    import subprocess
+    import sys
+    import ptera
+    import ptera.probe as PP
+    import pyprog
+    sels = [("f > a", "a", lambda i: i * i), ("g > b", "b", lambda i: i + 1), ("f > x", "x", lambda i: i),
+            ("g(x) > b", "b", lambda i: i + 1)]
+    for _ in range(10 if chk.tier == "quick" else 200):
+        mod = pyprog.make_module(XSRC, "verif_c17_exit")
+        k = rng.randrange(1, 5)
+        chosen = [rng.choice(sels) for _ in range(k)]
+        probes, outs, kinds = [], [], []
+        before = set(PP.global_probes)
+        for sel, focus, _v in chosen:
+            pr = ptera.global_probe(sel, env=mod.__dict__)
+            kind = rng.choice(sorted(REDUCE))
+            out = []
+            getattr(pr[focus], kind)().subscribe(on_next=out.append, on_completed=lambda out=out: out.append("done"),
+                                                 on_error=lambda e, out=out: out.append("ERR:" + type(e).__name__))
+            probes.append(pr), outs.append(out), kinds.append(kind)
+        n = rng.randrange(1, 5)
+        for i in range(n):
+            mod.f(i), mod.g(i)
+        err = None
+        try:
+            PP._terminate_global_probes()
+            mod.f(7), mod.g(7)                       # after the exit hook nothing is delivered
+            PP._terminate_global_probes()            # and the hook has nothing left to do
+        except BaseException as e:
+            err = "%s: %s" % (type(e).__name__, str(e)[:120])
+        left = [p for p in PP.global_probes if p not in before]
+        want = [[REDUCE[kd]([v(i) for i in range(n)]), "done"] for (_s, _f, v), kd in zip(chosen, kinds)]
+        desc = ["%s .%s()" % (c[0], kd) for c, kd in zip(chosen, kinds)]
+        chk.count(("exit-hook", tuple(desc), n), nontrivial=k > 1)
+        chk.dist("exit hook: %d global probe%s" % (k, "" if k == 1 else "s"))
+        if err or left or outs != want:
+            chk.violation("oracle", "global probes %s active at exit, %d calls: the exit hook %s; reductions published %s, "
+                          "expected %s; still registered as active: %d" % (desc, n, "raised " + err if err else "returned",
+                                                                          outs, want, len(left)),
+                          {"source": XSRC, "probes": desc, "calls": n})
+        for p in left:
+            try:
+                p.deactivate()
+            except Exception:
+                pass
+        pyprog.drop_module(mod)
+    # a real interpreter exit
+    for _ in range(1 if chk.tier == "quick" else 6):
+        k = rng.randrange(2, 5)
+        chosen = [rng.choice(sels[:2] + sels[3:]) for _ in range(k)]
+        kinds = [rng.choice(sorted(REDUCE)) for _ in range(k)]
+        n = rng.randrange(1, 5)
+        setup = "\n".join("p%d = global_probe(%r)\np%d[%r].%s().print('r%d={}')" % (j, c[0], j, c[1], kd, j)
+                          for j, (c, kd) in enumerate(zip(chosen, kinds)))
+        code = XCHILD % {"repo": core.REPO, "src": XSRC, "setup": setup, "n": n}
+        import os
+        import tempfile
+        with tempfile.TemporaryDirectory(prefix="verif_c17_") as td:      # ptera reads the functions' source
+            with open(os.path.join(td, "child.py"), "w") as fh:
+                fh.write(code)
+            res = subprocess.run([sys.executable, os.path.join(td, "child.py")], capture_output=True, text=True, timeout=120)
+        want = sorted("r%d=%s" % (j, REDUCE[kd]([c[2](i) for i in range(n)])) for j, (c, kd) in enumerate(zip(chosen, kinds)))
+        got = sorted(res.stdout.split())
+        chk.count(("exit-hook-child", setup, n), nontrivial=True)
+        chk.dist("exit hook: real interpreter exit")
+        if got != want or res.returncode != 0:
+            chk.violation("oracle", "a child interpreter exits with %d global probes active: published %s, expected %s "
+                          "(exit status %d; stderr: %s)" % (k, got, want, res.returncode, res.stderr.strip()[-200:]),
+                          {"child": code})
 
 
 def replay(chk, path):
